@@ -1157,3 +1157,33 @@ func lemmaC01_cflist_chmask6(m0, m1, m2, m3, m4, m5 ChMask) {
 	verifAssert(cp.ChannelMasks[4] == m4, "mask4")
 	verifAssert(cp.ChannelMasks[5] == m5, "mask5")
 }
+
+// two FOpts entries (one byte and two bytes, e.g. LinkCheckReq + LinkADRAns): the keystream runs over the
+// CONCATENATION of the marshalled entries (it does not restart per entry), so the receiver, which decrypts one
+// blob, recovers both commands
+func lemmaC03_fopts_two(a0, b0, b1 byte, key AES128Key, devAddr DevAddr, fcnt uint32) {
+	plain := []byte{a0, b0, b1}
+	mp := &MACPayload{FHDR: FHDR{DevAddr: devAddr, FCnt: fcnt, FOpts: []Payload{&DataPayload{Bytes: []byte{a0}}, &DataPayload{Bytes: []byte{b0, b1}}}}}
+	p := PHYPayload{MHDR: MHDR{MType: UnconfirmedDataUp, Major: LoRaWANR1}, MACPayload: mp}
+	err := p.EncryptFOpts(key)
+	verifAssert(err == nil, "encrypts")
+	if err != nil {
+		return
+	}
+	want, err2 := EncryptFOpts(key, false, true, devAddr, fcnt, plain)
+	if err2 != nil {
+		return
+	}
+	verifAssert(len(mp.FHDR.FOpts) == 1, "one-element")
+	if len(mp.FHDR.FOpts) != 1 {
+		return
+	}
+	d, ok := mp.FHDR.FOpts[0].(*DataPayload)
+	verifAssert(ok, "type")
+	if ok {
+		verifAssert(len(d.Bytes) == 3 && len(want) == 3, "length")
+		if len(d.Bytes) == 3 && len(want) == 3 {
+			verifAssert(d.Bytes[0] == want[0] && d.Bytes[1] == want[1] && d.Bytes[2] == want[2], "continuous-keystream")
+		}
+	}
+}
